@@ -279,10 +279,94 @@ fn null_grid_and_pipelines(rep: &Report) {
     }
 }
 
+/// Domain limits in projected space (inverse direction): the classification of a projected point as
+/// transformable (counted, finite) or beyond the limit (not counted, NaN) must not depend on the false
+/// origin: `P x_0=X y_0=Y` inverse at (x+X, y+Y) is classified like `P` inverse at (x, y), and where
+/// both succeed the results agree. Complete product: every projection aspect x 2 ellipsoids x a
+/// lattice over the whole projected plane (|x| <= 2.2e7 m, so that it crosses every strip limit).
+fn domain_edges(rep: &Report, tier: Tier, outcomes: &Mutex<HashSet<u64>>) {
+    let projs = crate::projs::projections();
+    let (dx, dy) = (500000.0f64, -2000000.0f64);
+    let step = tier.pick(100_000.0f64, 20_000.0);
+    let nx = (2.2e7 / step) as i64;
+    let ys = [-9.0e6, -4.0e6, -1.0e5, 0., 3.0e6, 9.5e6];
+    let mut pairs: Vec<(String, String, String, f64, f64)> = Vec::new(); // (label, base, shifted, dx, dy)
+    for p in &projs {
+        if p.aspect.ends_with("+ offsets") || p.op == "webmerc" || p.op == "butm" {
+            continue;
+        }
+        if p.op == "utm" {
+            let south = p.def.contains("south");
+            let base = format!("tmerc lon_0={} k_0=0.9996", p.lon_c);
+            pairs.push((format!("utm [{}]", p.aspect), base, p.def.clone(), 500000., if south { 10000000. } else { 0. }));
+            continue;
+        }
+        let keep: Vec<&str> = p.def.split(' ').filter(|k| !k.starts_with("x_0=") && !k.starts_with("y_0=")).collect();
+        let base = keep.join(" ");
+        pairs.push((format!("{} [{}]", p.op, p.aspect), base.clone(), format!("{base} x_0={dx} y_0={dy}"), dx, dy));
+    }
+    rep.set("domain_edge_pairs", json!(pairs.len()));
+    rep.set("domain_edge_lattice", json!({"x_step_m": step, "x_max_m": 2.2e7, "y_m": ys}));
+    par_range(pairs.len() * 2, |i| {
+        let (label, base, shifted, dx, dy) = &pairs[i / 2];
+        let ellps = ["GRS80", "intl"][i % 2];
+        let mut ctx = Minimal::default();
+        let (Ok(a), Ok(b)) = (ctx.op(&format!("{base} ellps={ellps}")), ctx.op(&format!("{shifted} ellps={ellps}"))) else {
+            rep.violation(&format!("projection with false origin is rejected / {label}"), json!({"base": base, "shifted": shifted}));
+            return;
+        };
+        let mut seen = HashSet::new();
+        let ell = ref_ellipsoid(ellps).unwrap();
+        for &y in &ys {
+            let src: Vec<C4> = (-nx..=nx).map(|k| [k as f64 * step, y, 12.5, 2020.25]).collect();
+            let mut da: Vec<Coor4D> = src.iter().map(|t| Coor4D(*t)).collect();
+            let mut db: Vec<Coor4D> = src.iter().map(|t| Coor4D([t[0] + dx, t[1] + dy, t[2], t[3]])).collect();
+            let ra = catch(|| ctx.apply(a, Inv, &mut da));
+            let rb = catch(|| ctx.apply(b, Inv, &mut db));
+            let (Ok(Ok(na)), Ok(Ok(nb))) = (&ra, &rb) else {
+                rep.violation(&format!("inverse projection panics or errs on a lattice over the projected plane / {label}"), json!({"base": base, "shifted": shifted, "y": y, "results": format!("{ra:?} {rb:?}")}));
+                continue;
+            };
+            rep.eval(2 * src.len() as u64);
+            let fin = |c: &Coor4D| c.0[0].is_finite() && c.0[1].is_finite();
+            let nan = |c: &Coor4D| c.0[0].is_nan() && c.0[1].is_nan();
+            // honest counts, no half-transformed tuples, untouched elements kept
+            for (n, d, def) in [(*na, &da, base), (*nb, &db, shifted)] {
+                let finite = d.iter().filter(|c| fin(c)).count();
+                let clean = d.iter().all(|c| fin(c) || nan(c));
+                let kept = d.iter().all(|c| !fin(c) || (c.0[2] == 12.5 && c.0[3] == 2020.25));
+                if n != finite || !clean || !kept {
+                    rep.violation(
+                        &format!("inverse projection over the whole projected plane: count differs from the number of finite results, a tuple is half transformed, or height/time change / {label}"),
+                        json!({"def": def, "ellps": ellps, "y": y, "count": n, "finite": finite, "all_clean": clean, "height_time_kept": kept}),
+                    );
+                }
+            }
+            for (k, (ca, cb)) in da.iter().zip(db.iter()).enumerate() {
+                seen.insert(hash_of(&(fin(ca), bits(ca.0[0]))));
+                let same_class = fin(ca) == fin(cb);
+                // ground distance (1 cm: far from the centre the inverses are ill conditioned, a shifted
+                // false origin legitimately changes the last bits of the projected coordinate)
+                let close = !fin(ca) || !fin(cb) || ell.ground(ca.0[0], ca.0[1], cb.0[0], cb.0[1]) < 0.01;
+                if !same_class || !close {
+                    rep.violation(
+                        &format!("{} / {label}", if !same_class { "inverse domain limit depends on the false origin: a projected point is transformed and counted with one false origin, failed with another" } else { "inverse result depends on the false origin" }),
+                        json!({"base": format!("{base} ellps={ellps}"), "shifted": format!("{shifted} ellps={ellps}"), "projected_point": src[k], "shift": [dx, dy],
+                               "base_result": ca.0, "shifted_result": cb.0}),
+                    );
+                    break;
+                }
+            }
+        }
+        outcomes.lock().unwrap().extend(seen);
+    });
+}
+
 pub fn run(tier: Tier) -> Report {
     let rep = Report::new("C10", tier, "exploration");
     rep.rule("operator table (28 entries) x supported directions x {inside, far outside} tuples x all 16 NaN masks over the four elements, each tuple applied alone and in one set; \
-              grid operators with the null grid; pipelines with failing steps. A per-operator dependency matrix says which outputs depend on which inputs. \
+              grid operators with the null grid; pipelines with failing steps; every projection aspect x 2 ellipsoids x a lattice over the whole projected plane (inverse direction, \
+              classification and result compared between two false origins). A per-operator dependency matrix says which outputs depend on which inputs. \
               distinct_nontrivial = distinct observed output bit patterns");
     rep.assume("the count clause is judged only for tuples whose worked-on elements are finite (what happens to the count when only an untouched element is NaN is not specified)");
     let wd = crate::util::enter_private_workdir();
@@ -292,6 +376,7 @@ pub fn run(tier: Tier) -> Report {
     let outcomes = Mutex::new(HashSet::new());
     par_range(t.len(), |i| check_entry(&rep, &t[i], &outcomes));
     null_grid_and_pipelines(&rep);
+    domain_edges(&rep, tier, &outcomes);
     rep.sample(json!({"operator": t[0].def, "inside": t[0].inside, "outside_fwd": t[0].outside_fwd, "outside_inv": t[0].outside_inv, "nan_masks": 15}));
     rep.sample(json!({"operator": t[20].def, "outside": t[20].outside_fwd}));
     let o = outcomes.into_inner().unwrap();
@@ -299,6 +384,5 @@ pub fn run(tier: Tier) -> Report {
     rep.outcomes_bulk(&o);
     Plain::clear_grids();
     crate::util::leave_private_workdir(&wd);
-    let _ = tier;
     rep
 }
